@@ -20,7 +20,7 @@ rc_all=0
 for id in "$@"; do
   out="$(VERIF_REPO="$target" VERIF_NOEVIDENCE=1 timeout "${TIMEOUT:-1500}" ./check "$id" --tier "$tier" 2>&1)"; rc=$?
   echo "== $id rc=$rc"
-  echo "$out" | grep -E "^(VIOLATION|KNOWN-FINDING|HARNESS-ERROR|\[$id\])" | cut -c1-260 | head -${LINES_MAX:-12}
+  echo "$out" | grep -E "^(VIOLATION|KNOWN-FINDING|HARNESS-ERROR|\[$id\])" | cut -c1-1500 | head -${LINES_MAX:-12}
   [ $rc -ne 0 ] && rc_all=$rc
 done
 exit $rc_all
